@@ -570,6 +570,47 @@ func init() {
 }
 
 func init() {
+	// par64: roaring64.ParOr splits the bucket key space into ranges; what a range worker does
+	// with inputs whose buckets interleave inside one range (and continue beyond it) only shows
+	// when several inputs spread over neighbouring buckets
+	reg(&opDef{name: "par64", tag: "C12",
+		gen: func(w *World, r *Rng) (Step, bool) {
+			var h0 uint64
+			switch r.Intn(4) {
+			case 0:
+				h0 = uint64(r.Intn(6))
+			case 1:
+				h0 = 0xFFFFFFFF - uint64(r.Intn(40))
+			default:
+				h0 = uint64(w.X.bucketKey(r))
+			}
+			n := 2 + r.Intn(3)
+			var slots []int
+			var steps []Step
+			for i := 0; i < n; i++ {
+				sl := w.slot64(r)
+				slots = append(slots, sl)
+				if r.Chance(1, 3) {
+					steps = append(steps, Step{Op: "maint64", S: []int{sl, (sl + 1) % numB64}, A: []uint64{6}})
+				}
+				for j := 0; j < 1+r.Intn(2); j++ {
+					h := (h0 + uint64(r.Intn(14))) & 0xFFFFFFFF
+					shape := uint64(7)
+					if r.Chance(1, 4) {
+						shape = 6
+					}
+					steps = append(steps, Step{Op: "addmany64", S: []int{sl}, A: []uint64{h, uint64(w.key(r)), shape, uint64(1 + r.Intn(10)), r.U64()}})
+				}
+			}
+			steps = append(steps, Step{Op: "parcmp", S: slots, A: []uint64{3, r.U64(), uint64(4 + r.Intn(5))}})
+			w.pending = append(w.pending, steps[1:]...)
+			w.probe("par64-scenario")
+			return steps[0], true
+		},
+		exec: func(w *World, st *Step) {}})
+}
+
+func init() {
 	// capflip: an in-place union of two sizeable array chunks leaves the receiver's chunk with a
 	// backing array much larger than its contents; then bring it just across a threshold
 	reg(&opDef{name: "capflip", tag: "C02",
